@@ -497,6 +497,189 @@ def hSelectNodes (inp out : Json) : Except String Findings := do
       let fs := spec fs "C15.all-valid" (err || Spec.C15.allValid t c nodes res)
       return fs
 
+/-! ### kubectl-eds command bodies -/
+def parseCmd : String → Option CliCmd
+  | "canaryPause" => some .canaryPause | "canaryUnpause" => some .canaryUnpause
+  | "canaryValidate" => some .canaryValidate | "canaryFail" => some .canaryFail
+  | "ruPause" => some .ruPause | "ruUnpause" => some .ruUnpause
+  | "freeze" => some .freeze | "unfreeze" => some .unfreeze
+  | _ => none
+
+def edsNoAnn (d : EDS) : String := flat { d with annotations := [] }
+
+def hCli (inp out : Json) : Except String Findings := do
+  let cmdS : String ← get inp "cmd"
+  let d : EDS ← get inp "eds"
+  let now : Time ← get inp "now"
+  let pn : Bool ← get out "panic"
+  let err : Bool ← get out "err"
+  let after : EDS ← get out "edsAfter"
+  let ersAfter : ERS ← get out "ersAfter"
+  let ersBefore : ERS ← get out "ersBefore"
+  let oldUnchanged : Bool ← get out "oldUnchanged"
+  let calls : CallsJ ← get out "calls"
+  let fs : Findings := #[]
+  let fs := diff fs "panic" pn false
+  match parseCmd cmdS with
+  | none => throw "bad cmd"
+  | some cmd =>
+    let m := cliRun cmd d.strategy.canary.isSome d.status.canary d.annotations
+    -- model vs implementation
+    let fs := match m with
+      | .refused _ =>
+        -- canary fail may also be refused because the canary ERS does not exist
+        diff fs "refused" err true
+      | .patchAnnotations ann =>
+        let fs := diff fs "refused" err false
+        diff fs "annotations" (smapStr after.annotations) (smapStr ann)
+      | .failErs name =>
+        if name != ersBefore.name then diff fs "refused(ers missing)" err true else
+        let fs := diff fs "refused" err false
+        -- F12 repair: the condition is updated in place (first entry of that type), appended only
+        -- when absent, so that the controller (which reads the first entry) sees the failure
+        diff fs "ers.conds" (statusStr ersAfter.status)
+          (statusStr { ersBefore.status with conds := updateCond ersBefore.status.conds now "Canary-Failed" "True" "Manually failed" "" false true })
+    -- specification: frame, refusal, documented value
+    let keys := Spec.C19.documentedKeys cmd
+    let fs := spec fs "C19.frame-annotations" (Spec.C19.frameOk d.annotations after.annotations keys)
+    let fs := spec fs "C19.frame-eds-rest" (edsNoAnn d == edsNoAnn after)
+    let fs := spec fs "C19.frame-other-ers" oldUnchanged
+    let fs := spec fs "C19.frame-canary-ers" (cmd == .canaryFail || flat ersAfter == flat ersBefore)
+    let fs := spec fs "C19.refuses-without-precondition" (Spec.C19.precondition cmd d.strategy.canary.isSome d.status.canary || err)
+    let fs := spec fs "C19.refusal-changes-nothing" (!err || (flat after == flat d && flat ersAfter == flat ersBefore && calls.patched.isEmpty && calls.updated.isEmpty))
+    let fs := spec fs "C19.writes-documented-value" (err || Spec.C19.writtenOk cmd d.status.canary after.annotations)
+    -- `fail` makes the canary failed *as the controller reads it* and touches nothing else of the ERS
+    let fs := spec fs "C19.fail-sets-condition" (err || cmd != .canaryFail ||
+                (isCanaryFailed (some ersAfter) &&
+                 { ersAfter with status := { ersAfter.status with conds := [] } } == { ersBefore with status := { ersBefore.status with conds := [] } } &&
+                 (ersAfter.status.conds.filter (fun c => c.type != "Canary-Failed")) == (ersBefore.status.conds.filter (fun c => c.type != "Canary-Failed"))))
+    let fs := spec fs "C19.no-create-delete" (calls.created.isEmpty && calls.deleted.isEmpty)
+    return fs
+
+/-! ### ExtendedDaemonSet Reconcile (L2) -/
+structure NewErsJ where
+  ns : String
+  generateName : String
+  labels : SMap
+  annotations : SMap
+  templateGeneration : String
+  ownerEds : String
+  deriving FromJson
+
+structure EdsOutJ where
+  kind : String
+  requeue : Bool
+  requeueAfter : Dur
+  defaulted : Option Strategy
+  defaultedTemplateName : String
+  created : Option NewErsJ
+  deletedErs : List String
+  statusUpdate : Option EDSStatus
+  specHash : Option String
+  specAnn : SMap
+  order : List String
+  foreign : List String
+  deriving FromJson
+
+def edsStatusStr (s : EDSStatus) : String :=
+  s!"d={s.desired} c={s.current} r={s.ready} a={s.available} u={s.upToDate} i={s.ignored} state={s.state} active={s.activeReplicaSet} reason={s.reason} canary={flat s.canary} " ++
+    " ".intercalate (s.conds.map condStr)
+
+def newErsStr (n : NewErs) : String :=
+  s!"{n.ns}/{n.generateName} labels=[{smapStr n.labels}] ann=[{smapStr n.annotations}] tg={n.templateGeneration} owner={n.ownerEds}"
+
+def hEdsReconcile (inp out : Json) : Except String Findings := do
+  let d : EDS ← get inp "eds"
+  let all : List ERS ← get inp "ers"
+  let pods : List Pod ← get inp "pods"
+  let nodes : List Node ← get inp "nodes"
+  let mode : String ← get inp "defaultMode"
+  let now : Time ← get inp "now"
+  let o : EdsOutJ ← fromJson? out
+  let m := reconcileEds d all pods nodes now mode
+  let fs : Findings := #[]
+  let fs := spec fs "C16.reconcile-no-crash(EDS)" (o.kind != "panic")
+  if o.kind == "panic" then return fs else
+  let fs := diff fs "err" (o.kind == "err") m.err
+  let fs := diff fs "requeue" o.requeue m.requeue
+  -- the remaining canary time is measured from the reconcile's own time.Now(), a few hundred
+  -- microseconds after the instant the harness sampled: compare up to 1 s
+  let closeEnough := (o.requeueAfter == 0) == (m.requeueAfter == 0) &&
+                     (o.requeueAfter - m.requeueAfter).natAbs < 1000000000
+  let fs := if closeEnough then fs else diff fs "requeueAfter" o.requeueAfter m.requeueAfter
+  let fs := diff fs "defaulted" (flat o.defaulted) (flat (m.defaulted.map (·.1)))
+  let toNew := fun (c : NewErsJ) => ({ ns := c.ns, generateName := c.generateName, labels := c.labels, annotations := c.annotations, templateGeneration := c.templateGeneration, ownerEds := c.ownerEds } : NewErs)
+  let fs := diff fs "created" ((o.created.map (fun c => newErsStr (toNew c))).getD "-") ((m.created.map newErsStr).getD "-")
+  let fs := diff fs "deletedErs" (sortStrs o.deletedErs) (sortStrs m.deletedErs)
+  let fs := diff fs "statusUpdate" ((o.statusUpdate.map edsStatusStr).getD "-") ((m.statusUpdate.map edsStatusStr).getD "-")
+  let fs := diff fs "specUpdate" (match o.specHash with | some h => s!"{h} [{smapStr o.specAnn}]" | none => "-")
+              (match m.specUpdate with | some (h, a) => s!"{h} [{smapStr a}]" | none => "-")
+  -- ---- specification clauses on the implementation's writes
+  let own := ownErs d all
+  let fs := spec fs "C12.writes-owned" o.foreign.isEmpty
+  -- C13: create only when no own replica set matches the template; faithful; named for this EDS
+  let hasMatch := own.any (fun e => SMap.get? e.annotations K.templateHashAnnot == some d.templateHash)
+  let fs := spec fs "C13.create-only-if-none" (o.created.isNone || !hasMatch)
+  let fs := match o.created with
+    | some c => spec fs "C13.created-faithful" (c.templateGeneration == d.templateHash &&
+                  SMap.get? c.annotations K.templateHashAnnot == some d.templateHash &&
+                  SMap.get? c.labels K.edsNameLabel == some d.name && c.ns == d.ns && c.ownerEds == d.name)
+    | none => fs
+  -- C13/C07: clean-up never deletes the active or the up-to-date replica set, only all-zero ones of
+  -- this EDS, and a failed canary only after the retention
+  let newActive := match o.statusUpdate with | some st => st.activeReplicaSet | none => d.status.activeReplicaSet
+  let fs := spec fs "C13.cleanup-safe" (o.deletedErs.all (fun nm =>
+      match own.find? (fun e => e.name == nm) with
+      | some e => nm != newActive &&
+                  SMap.get? e.annotations K.templateHashAnnot != some d.templateHash &&
+                  e.status.desired + e.status.current + e.status.ready + e.status.available == 0
+      | none => false))
+  let fs := spec fs "C07.retention" (o.deletedErs.all (fun nm =>
+      match own.find? (fun e => e.name == nm) with
+      | some e => (match findCond e.status.conds "Canary-Failed" with
+                   | some c => c.status != "True" || now ≥ c.lastTransition + 2 * minute - 5 * sec
+                   | none => true)
+      | none => true))
+  -- status function, when a status was written
+  let fs := match o.statusUpdate, upToDateOf d own with
+    | some st, some u =>
+      let active := (own.find? (fun e => e.name == st.activeReplicaSet)).getD u
+      let failed := isCanaryFailed (some u)
+      let (paused, reason) := isCanaryPaused d.annotations (some u)
+      let canaryActive := d.strategy.canary.isSome && !failed && active.name != u.name
+      let fs := spec fs "C14.counters" (Spec.C14.countersOk own active u canaryActive st)
+      let fs := spec fs "C14.state" (Spec.C14.stateOk d.strategy.canary.isSome canaryActive failed paused reason d.annotations u st)
+      let fs := spec fs "C14.conditions" (Spec.C14.condsOk d.strategy.canary.isSome failed paused st)
+      -- C05 at L2: activeReplicaSet changes only under the promotion rule
+      let oldActive := own.find? (fun e => e.name == d.status.activeReplicaSet)
+      let fs := spec fs "C05.status-active" (st.activeReplicaSet == d.status.activeReplicaSet ||
+                  (st.activeReplicaSet == u.name &&
+                    Spec.C05.holds d.strategy.canary d.annotations oldActive.isSome u (now + 5 * sec) true))
+      -- C07: a failed canary is rolled back: canary cleared, active unchanged, template restored
+      let fs := if failed && d.strategy.canary.isSome && oldActive.isSome && active.name != u.name then
+          spec fs "C07.rollback-writes" (st.canary.isNone && st.state == "Canary Failed" &&
+            st.activeReplicaSet == d.status.activeReplicaSet && o.specHash == some active.templateGeneration)
+        else fs
+      -- C15 at L2: the canary node list only grows up to the request, distinct
+      let fs := match st.canary, d.strategy.canary with
+        | some cs, some c =>
+          let oldNodes := match d.status.canary with | some x => x.nodes | none => []
+          spec fs "C04.list-growth" (match resolveIntOrPercent c.replicas d.status.desired with
+            | some k => decide ((cs.nodes.length : Int) ≤ max k oldNodes.length)
+            | none => true)
+        | _, _ => fs
+      fs
+    | _, _ => fs
+  -- C16: defaulting update is recognised (no loop)
+  let fs := match o.defaulted with
+    | some s' => spec fs "C16.no-default-loop" (isDefaulted s' o.defaultedTemplateName)
+    | none => fs
+  -- order of the two writes of the rollback / update
+  let fs := spec fs "C07.status-before-spec" (match o.order.findIdx? (·.startsWith "update:EDS"), o.order.findIdx? (·.startsWith "status:EDS") with
+      | some iu, some is_ => is_ < iu
+      | _, _ => true)
+  return fs
+
 def handlers : List (String × (Json → Json → Except String Findings)) := [
   ("limits", hLimits),
   ("max_creation", hMaxCreation),
@@ -511,7 +694,9 @@ def handlers : List (String × (Json → Json → Except String Findings)) := [
   ("filter", hFilter),
   ("create_pod", hCreatePod),
   ("node_hash", hNodeHash),
-  ("select_nodes", hSelectNodes)
+  ("select_nodes", hSelectNodes),
+  ("cli", hCli),
+  ("eds_reconcile", hEdsReconcile)
 ]
 
 def handleLine (line : String) : String :=
